@@ -3,6 +3,7 @@ import GopatchModel.Spec.Assoc
 import GopatchModel.Spec.DotsKeys
 import GopatchModel.Spec.SplitSpec
 import GopatchModel.Spec.RewriteSpec
+import GopatchModel.Spec.FinderSpec
 namespace Gopatch.C04
 open Gopatch
 
@@ -358,6 +359,63 @@ theorem every_elision_is_recorded_at_its_three_dots (u : Sec.Uni) (content : Sec
   obtain ⟨s', e', hout, hadj⟩ := Fnd.rewrite_elision_maps_back _ augs hok i s e n h
   obtain ⟨p, hp, hd⟩ := Sec.dots_of_a_version_are_dots_of_the_file u content c hc m s h0 h1 h2
   exact ⟨s', e', p, hout, by rw [hadj]; exact hp, hd⟩
+
+/-- what is assumed of go/scanner on one version of a change: the stream ends with its only EOF token, the tokens come in
+source order inside the version, an ELLIPSIS token covers three bytes and these are `...` (evaluated by the driver on the
+tokens of every real version: `scanOKB`) -/
+structure ScanOK (src : List UInt8) (toks : List Fnd.Tok) : Prop where
+  wf : Fnd.WF toks
+  laid : Fnd.Laid toks
+  inside : ∀ t ∈ toks, t.off ≤ src.length
+  dots : ∀ t ∈ toks, t.kind = .ellipsis → src[t.off]? = some 46 ∧ src[t.off + 1]? = some 46 ∧ src[t.off + 2]? = some 46
+
+theorem scanOKB_sound (src : List UInt8) (toks : List Fnd.Tok) (h : Fnd.scanOKB src toks = true) : ScanOK src toks := by
+  simp only [Fnd.scanOKB, Bool.and_eq_true, List.all_eq_true, decide_eq_true_eq, Bool.or_eq_true, bne_iff_ne, ne_eq,
+    beq_iff_eq] at h
+  refine ⟨Fnd.wfB_sound _ h.1.1, Fnd.laidB_sound _ h.1.2, fun t ht => (h.2 t ht).1, fun t ht hk => ?_⟩
+  rcases (h.2 t ht).2 with hne | hd
+  · exact absurd hk hne
+  · exact ⟨hd.1.1, hd.1.2, hd.2⟩
+
+/-- **Every elision the finder reports is recorded at the three dots it was written with** - the theorem above with its
+hypotheses on the augmentations discharged: they are what `find` itself returns on the tokens of the version, and nothing
+is assumed but `ScanOK`, a statement about go/scanner's tokens. (`find_augs_ok`: the finder's output, sorted, is in order,
+inside the source, elisions three bytes long; `find_dots_on_ellipsis`: every elision in it stands on an ELLIPSIS token.) -/
+theorem every_elision_the_finder_reports_is_recorded_at_its_three_dots (u : Sec.Uni) (content : Sec.Bytes) (c : Sec.Change)
+    (hc : c ∈ (Sec.split u content).1) (m : Bool) (toks : List Fnd.Tok)
+    (hs : ScanOK (Sec.build (c.patch.filterMap (Sec.sideLine m))).contents toks)
+    (i s e : Nat) (n : Bool) (h : (Fnd.sortByStart (Fnd.find toks hs.wf))[i]? = some (.dots s e n)) :
+    ∃ s' e' p, (Fnd.rewrite (Sec.build (c.patch.filterMap (Sec.sideLine m))).contents (Fnd.find toks hs.wf)).2.1[i]? =
+        some (.dots s' e' n) ∧
+      (Sec.build (c.patch.filterMap (Sec.sideLine m))).positionIn content
+          (Fnd.adjust (Fnd.rewrite (Sec.build (c.patch.filterMap (Sec.sideLine m))).contents (Fnd.find toks hs.wf)).2.2 s') =
+        Sec.position content p ∧
+      content[p]? = some 46 ∧ content[p + 1]? = some 46 ∧ content[p + 2]? = some 46 := by
+  have hok := Fnd.find_augs_ok _ toks hs.wf hs.laid hs.inside
+  have hmem : Fnd.Aug.dots s e n ∈ Fnd.find toks hs.wf :=
+    (Fnd.mem_sortByStart _ _).1 (List.mem_of_getElem? h)
+  obtain ⟨_, t, ht, hk, rfl⟩ := Fnd.find_dots_on_ellipsis toks hs.wf hs.laid s e n hmem
+  obtain ⟨h0, h1, h2⟩ := hs.dots t ht hk
+  exact every_elision_is_recorded_at_its_three_dots u content c hc m _ hok i t.off e n h h0 h1 h2
+
+/-- the finder's augmentations never overlap and never leave the version, whatever the tokens say, as long as they are
+go/scanner's: the hypothesis `AugsOK` of the theorems about `rewrite` holds for `find`'s own output -/
+theorem the_finder_meets_the_rewriters_hypothesis (src : List UInt8) (toks : List Fnd.Tok) (hs : ScanOK src toks) :
+    Fnd.AugsOK src 0 (Fnd.sortByStart (Fnd.find toks hs.wf)) :=
+  Fnd.find_augs_ok src toks hs.wf hs.laid hs.inside
+
+/-- non-vacuity: the tokens of `foo(...)` followed by an elided statement `...` - the finder reports a fake package clause,
+a fake function and both elisions, and `ScanOK`'s decidable parts hold -/
+example :
+    let toks : List Fnd.Tok := [⟨.ident, 0, 1⟩, ⟨.lparen, 3, 1⟩, ⟨.ellipsis, 4, 1⟩, ⟨.rparen, 7, 1⟩, ⟨.other, 8, 1⟩,
+      ⟨.ellipsis, 9, 2⟩, ⟨.other, 12, 2⟩, ⟨.eof, 13, 3⟩]
+    Fnd.wfB toks = true ∧ Fnd.laidB toks = true ∧
+      (Fnd.findTotal toks).map Fnd.sortByStart =
+        some [.fakePackage 0, .fakeFunc 0 true, .dots 4 7 false, .dots 9 12 false] ∧
+      (let src := "foo(...)\n...\n".toUTF8.toList
+       toks.all (fun t => decide (t.off ≤ src.length) &&
+         (t.kind != .ellipsis || (src[t.off]? == some 46 && src[t.off + 1]? == some 46 && src[t.off + 2]? == some 46))) = true) := by
+  decide +kernel
 
 /-- **What `rewrite` keeps, it keeps in place**: a byte of a version that lies in no augmentation is found in the augmented
 source at an offset that `posAdjuster.Pos` takes back to the byte's own offset - so the place of every token go/parser sees
